@@ -595,21 +595,24 @@ def run_engine(out, tier, seed, prop, opts, ncases, oracles, tag="eng"):
             continue
         terms.append(ht); idx.append(ci)
     model = coq_eval_cases(f"{prop}_{tag}", IMPORTS, f"run_hist {coq_term(extra)} {coq_term(lt)}", terms, shard=opts.get("shard", 12))
+    model_by_ci = dict(zip(idx, model))
     nbuilds = 0
-    for ci, mo in zip(idx, model):
-        case, obs = pairs[ci]
+    for ci, (case, obs) in enumerate(pairs):
+        if any("raised" in o for o in obs):
+            continue
+        mo = model_by_ci.get(ci)        # None: no model run (e.g. collection failed); the oracles still apply
         sigs = {"t": {}, "n": {}}
         modsha = {}
         builds = [op for op in case["ops"] if op["op"] == "build"]
         prev = []
         ok_case = True
-        for bi, (op, o, m) in enumerate(zip(builds, obs, mo)):
+        for bi, (op, o) in enumerate(zip(builds, obs)):
+            m = mo[bi] if mo is not None and bi < len(mo) else None
             for mm, (v, h) in o["mods"].items():
                 modsha[v] = h
             cimp = canon_impl(o, sigs)
-            cmod = canon_model(m, o, modsha)
             nbuilds += 1
-            d = compare(cimp, cmod)
+            d = compare(cimp, canon_model(m, o, modsha)) if m is not None else []
             out.case({"tasks": op["tasks"], "cfg": op["cfg"], "faults": op["faults"], "reports": cimp["reports"], "i": (ci, bi)},
                      nontrivial=len(cimp["reports"]) > 0)
             for t, oc in cimp["reports"]:
@@ -621,7 +624,13 @@ def run_engine(out, tier, seed, prop, opts, ncases, oracles, tag="eng"):
                                  {"history_ops": case["ops"], "build_index": bi, "diffs": d[:3]})
             ctx = {"case": case, "bi": bi, "op": op, "prev": prev, "raw": o, "sigs": sigs, "modsha": modsha}
             for orc in oracles:
-                for what, fids in orc(cimp, ctx):
+                try:
+                    found = orc(cimp, ctx)
+                except Exception as e:  # noqa: BLE001  (an oracle that needs collected names cannot run on a failed collection)
+                    found = []
+                    if o.get("tasks"):
+                        raise
+                for what, fids in found:
                     out.violation(what, {"history_ops": case["ops"], "build_index": bi, "problem": what,
                                          "reports": cimp["reports"], "log": cimp["log"], "exit": cimp["exit"]},
                                   finding_matchers=fids)
